@@ -7,7 +7,11 @@ SHORTS = "abcdefgijklmnopqrstuvwxyz"
 LONGS = ["in", "input", "input-file", "inc", "include", "out", "output", "opt", "option", "verbose", "value", "val",
          "name", "num", "number", "level", "list", "limit", "mode", "max", "maxsize", "min", "file", "filter", "force"]
 SCALAR = ["int", "str", "optint"]
-CONT = ["vecint", "vecstr", "setint", "listint", "dequeint", "arr3"]
+CONT = ["vecint", "vecstr", "setint", "listint", "dequeint", "arr3", "sarr3", "fwdint", "msetint", "stackint", "queueint",
+        "pqint", "tup", "bits8"]
+ARR = ("arr3", "sarr3")
+NO_UNIQ = ("setint", "stackint", "queueint", "pqint", "tup", "bits8")          # setUniqueData() refused / meaningless
+SORTABLE = ("vecint", "listint", "dequeint", "fwdint", "arr3", "sarr3")
 
 
 def T(s):
@@ -19,7 +23,8 @@ def S(codes):
 
 
 def new_arg(kind):
-    init = {"flag": False, "int": 0, "str": [], "optint": [], "arr3": [0, 0, 0]}.get(kind, [])
+    init = {"flag": False, "int": 0, "str": [], "optint": [], "arr3": [0, 0, 0], "sarr3": [0, 0, 0], "tup": [0, [], 0],
+            "bits8": [False] * 8}.get(kind, [])
     return {"s": 0, "l": [], "pos": False, "kind": kind, "vm": "none" if kind == "flag" else "req", "mand": False,
             "card": {"t": "dflt", "a": 0, "b": 0}, "checks": [], "formats": [], "sep": 44, "clear": False, "sort": False,
             "uniq": "no", "multi": False, "req": [], "exc": [], "init": init, "depr": False, "unset": False,
@@ -27,7 +32,8 @@ def new_arg(kind):
 
 
 def is_int_kind(k):
-    return k in ("int", "optint", "vecint", "setint", "listint", "dequeint", "arr3")
+    return k in ("int", "optint", "vecint", "setint", "listint", "dequeint", "arr3", "sarr3", "fwdint", "msetint", "stackint",
+                 "queueint", "pqint", "bits8")
 
 
 def is_cont(k):
@@ -66,9 +72,14 @@ class Gen:
                 a["init"] = T(r.choice(["", "dflt", "x"]))
             elif kind == "optint":
                 a["init"] = r.choice([[], [5]])
-            elif is_cont(kind) and kind != "arr3":
+            elif kind == "bits8":
+                if r.random() < 0.3:
+                    a["init"] = [False, True, False, False, False, False, False, True]
+            elif is_cont(kind) and kind not in ARR and kind != "tup":
                 if r.random() < 0.3:
                     a["init"] = [1, 2] if is_int_kind(kind) else [T("p"), T("q")]
+                    if kind in ("fwdint", "stackint", "pqint"):
+                        a["init"] = [2, 1]
             if self.rich:
                 self._decorate(a)
             args.append(a)
@@ -90,7 +101,7 @@ class Gen:
         # a pre-filled optional/container destination already "has a value" for the mandatory check (undocumented): not generated
         if k != "flag" and r.random() < 0.15 and not ((is_cont(k) or k == "optint") and a["init"] not in ([], [0, 0, 0])):
             a["mand"] = True
-        if is_int_kind(k) and r.random() < 0.4:
+        if is_int_kind(k) and k != "bits8" and r.random() < 0.4:
             c = r.choice(["lower", "upper", "range", "values"])
             if c == "lower":
                 a["checks"].append({"k": "lower", "a": r.choice([0, 1, 5, -10]), "b": 0, "vals": []})
@@ -118,15 +129,15 @@ class Gen:
         if is_cont(k):
             if r.random() < 0.3:
                 a["sep"] = ord(r.choice(";:+/"))
-            if r.random() < 0.25 and k != "arr3":
+            if r.random() < 0.25 and k not in ARR and k != "tup":
                 a["clear"] = True
-            if r.random() < 0.25 and k not in ("setint",) and is_int_kind(k):
+            if r.random() < 0.25 and k in SORTABLE:
                 a["sort"] = True
-            if r.random() < 0.3 and k != "setint":
+            if r.random() < 0.3 and k not in NO_UNIQ:
                 a["uniq"] = r.choice(["ignore", "error"])
             if r.random() < 0.4:
                 a["multi"] = True
-            if r.random() < 0.25:
+            if r.random() < 0.25 and k != "tup":
                 t = r.choice(["max", "exact", "range"])
                 if t == "max":
                     a["card"] = {"t": "max", "a": r.randint(1, 4), "b": 0}
@@ -219,6 +230,10 @@ class Gen:
 
     def bad_value(self, a):
         r = self.r
+        if a["kind"] == "bits8":
+            return r.choice(["8", "9", "x", "100"])
+        if a["kind"] == "tup":
+            return None
         if is_int_kind(a["kind"]):
             opts = ["x", "1x", "x1", "1.5", "99999999999", "2147483648", "", "--", "1 2"]
             for c in a["checks"]:
@@ -304,16 +319,18 @@ class Gen:
                 if a["card"]["t"] == "max": hi = min(hi, a["card"]["a"])
                 if a["card"]["t"] == "exact": lo = hi = a["card"]["a"]
                 if a["card"]["t"] == "range": lo, hi = a["card"]["a"], a["card"]["b"]
-                if a["kind"] == "arr3": hi = min(hi, 3); lo = min(lo, hi)
+                if a["kind"] in ARR: hi = min(hi, 3); lo = min(lo, hi)
+                if a["kind"] == "tup": lo = hi = 3
                 k = r.randint(lo, hi)
                 vals = []
-                for _ in range(k):
-                    v = self.good_value(a)
+                for n in range(k):
+                    v = self.good_value(a) if a["kind"] != "tup" else (self.good_value({"kind": "int", "checks": []}) if n != 1 else self.good_value({"kind": "str", "checks": []}))
+                    if a["kind"] == "bits8": v = str(r.randint(0, 7))
                     if v is None: return None
                     vals.append(v)
-                if a["uniq"] == "error" or a["kind"] == "arr3" and a["uniq"] != "no":
+                if a["uniq"] == "error" or a["kind"] in ARR and a["uniq"] != "no":
                     if len(set(self._canon(a, v) for v in vals)) != len(vals): return None
-                    if a["kind"] != "arr3" and not a["clear"] and any(self._canon(a, v) in [self._canon_init(a, x) for x in a["init"]] for v in vals): return None
+                    if a["kind"] not in ARR and not a["clear"] and any(self._canon(a, v) in [self._canon_init(a, x) for x in a["init"]] for v in vals): return None
                 # cardinality counts elements: a dropped duplicate still counts, keep it simple
                 uses.append([i, vals])
             else:
@@ -505,7 +522,7 @@ def mutations(g, cfgd, line):
         if not a["pos"] and not is_cont(a["kind"]) and a["card"]["t"] == "dflt":
             pos = r.randint(k + 1, len(line))
             add("duplicate", line[:pos] + [u] + line[pos:])
-        if is_cont(a["kind"]) and a["card"]["t"] in ("max", "exact", "range") and a["kind"] != "setint":
+        if is_cont(a["kind"]) and a["card"]["t"] in ("max", "exact", "range") and a["kind"] not in ("setint", "bits8", "tup"):
             mx = a["card"]["a"] if a["card"]["t"] != "range" else a["card"]["b"]
             extra = []
             for n in range(mx + 1 - 0):
@@ -517,7 +534,7 @@ def mutations(g, cfgd, line):
                 add("too_many_values", line[:k] + [[u[0], extra]] + line[k + 1:])
         if is_cont(a["kind"]) and a["card"]["t"] in ("exact", "range") and a["card"]["a"] >= 2 and not a["pos"]:
             add("too_few_values", line[:k] + [[u[0], u[1][:1]]] + line[k + 1:])
-        if a["kind"] == "arr3" and not a["pos"]:
+        if a["kind"] in ARR and not a["pos"]:
             vals = [g.good_value(a) for _ in range(4)]
             if all(v is not None for v in vals) and (a["uniq"] == "no" or len(set(int(v) for v in vals)) == 4):
                 add("array_overflow", line[:k] + [[u[0], vals]] + line[k + 1:])
